@@ -422,6 +422,7 @@ Proof.
   - destruct H; [subst; eauto|]. apply IH in H. destruct H; eauto.
   - apply IH in H. destruct H; eauto.
   - apply IH in H. destruct H; eauto.
+  - apply IH in H. destruct H; eauto.
 Qed.
 
 Lemma dispatch_sorted : forall E t k s evs oc s', (forall e, script E e = []) ->
@@ -438,6 +439,141 @@ Proof.
     destruct H as (_ & _ & Hmin & _ & _ & U & _). apply U in Hd. apply (Hmin e1 d1). tauto.
 Qed.
 
+(* ------------------------------------------------------------------ one event-loop iteration *)
+
+Lemma set_now_spec : forall E s t, Inv E s ->
+  Inv E (set_now s t) /\ same_due s (set_now s t) /\ now (set_now s t) = t.
+Proof.
+  intros E s t I. split; [destruct I; constructor; auto|]. split; [|reflexivity].
+  intros e d. unfold due. simpl. tauto.
+Qed.
+
+Definition is_setnow (b : bop) : bool := match b with SetNow _ => true | _ => false end.
+(* Scheduler::set_cached_time is protected: slots and call_events cannot move the scheduler's
+   clock on their own (Thread::set_cached_time moves both clocks) *)
+Definition no_setnow (E : env) : Prop := forall e b, In b (script E e) -> is_setnow b = false.
+
+Lemma exec_basic_now : forall E s b s' o, Inv E s -> is_setnow b = false ->
+  exec_basic E s b = (s', o) -> now s' = now s.
+Proof.
+  intros E s b s' o I Hb H. apply exec_basic_spec in H; auto.
+  destruct H as (_ & [[_ ->]|Ef]); auto.
+  destruct b; simpl in Hb; try discriminate; intuition.
+Qed.
+
+Lemma run_script_now : forall E bs s s' os err, Inv E s -> (forall b, In b bs -> is_setnow b = false) ->
+  run_script E s bs = (s', os, err) -> now s' = now s.
+Proof.
+  induction bs; simpl; intros s s' os err I Hb H.
+  - inversion H; subst; auto.
+  - destruct (exec_basic E s a) as [s1 o] eqn:X.
+    pose proof (exec_basic_now E s a s1 o I (Hb a (or_introl eq_refl)) X) as N1.
+    apply exec_basic_spec in X; auto. destruct X as (I1 & _).
+    destruct o.
+    + destruct (run_script E s1 bs) as [[s2 os2] err2] eqn:R. inversion H; subst.
+      rewrite <- N1. eapply IHbs; eauto.
+    + inversion H; subst; auto.
+    + destruct (run_script E s1 bs) as [[s2 os2] err2] eqn:R. inversion H; subst.
+      rewrite <- N1. eapply IHbs; eauto.
+Qed.
+
+Lemma dispatch_now : forall E t k s evs oc s', no_setnow E -> Dispatch E t k s evs oc s' -> now s' = now s.
+Proof.
+  intros E t k s evs oc s' NS H. induction H; auto.
+  - destruct H as (_ & _ & _ & _ & _ & _ & N). auto.
+  - destruct H as (_ & _ & _ & I1 & _ & _ & N). rewrite <- N.
+    eapply run_script_now; eauto.
+  - destruct H as (_ & _ & _ & I1 & _ & _ & N). rewrite IHDispatch, <- N.
+    eapply run_script_now; eauto.
+Qed.
+
+Lemma in_loop_map_out : forall a b c os, ~ In (ELoop a b c) (map EOut os).
+Proof. intros a b c os H. apply in_map_iff in H. destruct H as (x & A & _). discriminate. Qed.
+
+Lemma dispatch_no_loop : forall E t k s evs oc s', Dispatch E t k s evs oc s' ->
+  forall a b c, ~ In (ELoop a b c) evs.
+Proof.
+  induction 1; simpl; intros a b c Hin; try tauto.
+  - destruct Hin; [discriminate|tauto].
+  - destruct Hin as [Hin|Hin]; [discriminate|]. eapply in_loop_map_out; eauto.
+  - destruct Hin as [Hin|Hin]; [discriminate|].
+    apply in_app_or in Hin. destruct Hin as [Hin|Hin]; [eapply in_loop_map_out; eauto|].
+    eapply IHDispatch; eauto.
+Qed.
+
+(* spec of one iteration of Thread::event_loop in terms of the pending map *)
+Definition LoopIter (E : env) (s : state) (t1 d m : Z) (c : option nat) (evs : list ev) (s' : state) : Prop :=
+  exists s0 s1 os err, Inv E s0 /\ same_due s s0 /\ now s0 = t1 /\
+    run_script E s0 (call_script E c) = (s1, os, err) /\
+    ((err = true /\ evs = map EOut os /\ s' = s1) \/
+     (err = false /\ exists s2 s3 pevs oc, Inv E s2 /\ same_due s1 s2 /\ now s2 = t1 + d /\
+        Dispatch E (t1 + d) (e_fuel E) s2 pevs oc s3 /\
+        ((oc <> Done /\ evs = map EOut os ++ pevs /\ s' = s3) \/
+         (oc = Done /\ exists r, same_due s3 s' /\ now s' = now s3 /\ next_sound s3 (Z.max m 0) r /\
+            evs = map EOut os ++ pevs ++ [ELoop (t1 + d) (now s3) r])))).
+
+Ltac spl := repeat match goal with |- _ /\ _ => split; [solve [auto]|] end.
+
+Lemma loop_refines : forall E s t1 d m c s' evs, Inv E s -> loop E s t1 d m c = (s', evs) ->
+  Inv E s' /\ LoopIter E s t1 d m c evs s'.
+Proof.
+  intros E s t1 d m c s' evs I H. unfold loop in H.
+  destruct (set_now_spec E s t1 I) as (I0 & SD0 & N0).
+  destruct (run_script E (set_now s t1) (call_script E c)) as [[s1 os] err] eqn:R.
+  pose proof (run_script_inv E _ _ _ _ _ I0 R) as I1.
+  destruct err.
+  - inversion H; subst. split; auto.
+    exists (set_now s t1), s', os, true. spl. left. auto.
+  - destruct (set_now_spec E s1 (t1 + d) I1) as (I2 & SD2 & N2).
+    destruct (perform E (e_fuel E) (set_now s1 (t1 + d)) (t1 + d)) as [[s3 pevs] oc] eqn:P.
+    apply perform_refines in P; auto.
+    pose proof (dispatch_inv _ _ _ _ _ _ _ P) as I3.
+    destruct oc.
+    + destruct (next_timeout s3 (Z.max m 0)) as [s4 o] eqn:NT.
+      apply next_timeout_spec with (E := E) in NT; auto.
+      destruct NT as (I4 & N4 & SD4 & r & -> & NS).
+      inversion H; subst. split; auto.
+      exists (set_now s t1), s1, os, false. spl.
+      right. split; auto.
+      exists (set_now s1 (t1 + d)), s3, pevs, Done. spl.
+      right. split; auto. exists r. auto.
+    + inversion H; subst. split; auto.
+      exists (set_now s t1), s1, os, false. spl.
+      right. split; auto.
+      exists (set_now s1 (t1 + d)), s', pevs, Aborted. spl.
+      left. split; [discriminate|auto].
+    + inversion H; subst. split; auto.
+      exists (set_now s t1), s1, os, false. spl.
+      right. split; auto.
+      exists (set_now s1 (t1 + d)), s', pevs, OutOfFuel. spl.
+      left. split; [discriminate|auto].
+Qed.
+
+(* the poll timeout handed to Poll::do_poll at the end of an iteration, added to the clock value the
+   thread holds (which is the clock after call_events), does not pass any pending timer *)
+Lemma loop_never_oversleeps : forall E s t1 d m c s' evs, Inv E s -> no_setnow E ->
+  loop E s t1 d m c = (s', evs) ->
+  forall tnow snow r, In (ELoop tnow snow r) evs ->
+    tnow = t1 + d /\ snow = t1 + d /\ now s' = t1 + d /\ 0 <= r <= Z.max m 0 /\
+    forall e dd, due s' e dd -> r = 0 \/ tnow + r <= dd.
+Proof.
+  intros E s t1 d m c s' evs I NS H tnow snow r Hin.
+  destruct (loop_refines E s t1 d m c s' evs I H) as (I' & s0 & s1 & os & err & I0 & SD0 & N0 & R & Cs).
+  destruct Cs as [(_ & -> & _)|(_ & s2 & s3 & pevs & oc & I2 & SD2 & N2 & D & Cs)].
+  { exfalso. eapply in_loop_map_out; eauto. }
+  destruct Cs as [(_ & -> & _)|(-> & r0 & SD3 & N3 & (A & B & _) & ->)].
+  { exfalso. apply in_app_or in Hin. destruct Hin as [Hin|Hin].
+    - eapply in_loop_map_out; eauto.
+    - eapply dispatch_no_loop; eauto. }
+  pose proof (dispatch_now _ _ _ _ _ _ _ NS D) as N4.
+  apply in_app_or in Hin. destruct Hin as [Hin|Hin]; [exfalso; eapply in_loop_map_out; eauto|].
+  apply in_app_or in Hin. destruct Hin as [Hin|Hin]; [exfalso; eapply dispatch_no_loop; eauto|].
+  simpl in Hin. destruct Hin as [Hin|[]]. inversion Hin; subst; clear Hin.
+  assert (Hr : 0 <= r <= Z.max m 0) by (apply B; lia).
+  split; auto. split; [lia|]. split; [lia|]. split; auto.
+  intros e dd Hd. apply SD3 in Hd. apply A in Hd. lia.
+Qed.
+
 (* ------------------------------------------------------------------ whole runs *)
 
 Inductive Run (E : env) : state -> list op -> list (list ev) -> state -> Prop :=
@@ -445,14 +581,16 @@ Inductive Run (E : env) : state -> list op -> list (list ev) -> state -> Prop :=
 | R_basic : forall s b s1 o ops outs s', bop_effect E s b s1 o -> Inv E s1 ->
     Run E s1 ops outs s' -> Run E s (Basic b :: ops) ([EOut o] :: outs) s'
 | R_perform : forall s t evs oc s1 ops outs s', Dispatch E t (e_fuel E) s evs oc s1 ->
-    Run E s1 ops outs s' -> Run E s (Perform t :: ops) (evs :: outs) s'.
+    Run E s1 ops outs s' -> Run E s (Perform t :: ops) (evs :: outs) s'
+| R_loop : forall s t1 d m c evs s1 ops outs s', LoopIter E s t1 d m c evs s1 -> Inv E s1 ->
+    Run E s1 ops outs s' -> Run E s (Loop t1 d m c :: ops) (evs :: outs) s'.
 
 Theorem run_refines : forall E ops s s' outs, Inv E s -> run E s ops = (s', outs) ->
   Run E s ops outs s' /\ Inv E s'.
 Proof.
   induction ops as [|o r IH]; simpl; intros s s' outs I H.
   - inversion H; subst. split; auto. constructor.
-  - destruct o as [b|t]; simpl in H.
+  - destruct o as [b|t|t1 d m c]; simpl in H.
     + destruct (exec_basic E s b) as [s1 o1] eqn:X.
       destruct (run E s1 r) as [s2 ls] eqn:R. inversion H; subst; clear H.
       apply exec_basic_spec in X; auto. destruct X as (I1 & Ef).
@@ -461,5 +599,9 @@ Proof.
       destruct (run E s1 r) as [s2 ls] eqn:R. inversion H; subst; clear H.
       apply perform_refines in P; auto.
       pose proof (dispatch_inv _ _ _ _ _ _ _ P) as I1.
+      destruct (IH _ _ _ I1 R) as (Rr & I2). split; auto. econstructor; eauto.
+    + destruct (loop E s t1 d m c) as [s1 evs] eqn:L.
+      destruct (run E s1 r) as [s2 ls] eqn:R. inversion H; subst; clear H.
+      apply loop_refines in L; auto. destruct L as (I1 & LI).
       destruct (IH _ _ _ I1 R) as (Rr & I2). split; auto. econstructor; eauto.
 Qed.
